@@ -136,7 +136,11 @@ func sweep(p *Program, rep *PropertyReport, spec *PropertySpec, seed int64) map[
 	exe, _ := os.Executable()
 	results := make([]variantResult, len(vars))
 	var wg sync.WaitGroup
-	sem := make(chan struct{}, 12)
+	par := 10
+	if v := os.Getenv("VERIF_SWEEP_PAR"); v != "" {
+		fmt.Sscan(v, &par)
+	}
+	sem := make(chan struct{}, par)
 	for i := range vars {
 		wg.Add(1)
 		go func(i int) {
@@ -156,12 +160,21 @@ func sweep(p *Program, rep *PropertyReport, spec *PropertySpec, seed int64) map[
 			byOp[vars[i].Op] = map[string]int{}
 		}
 		byOp[vars[i].Op][r.Outcome]++
-		if r.Outcome == "survived" && len(survivors) < 60 {
+		if r.Outcome == "survived" && len(survivors) < 120 {
 			survivors = append(survivors, r.Variant)
 		}
 		if (r.Outcome == "violation" || r.Outcome == "undecided") && len(samples) < 25 {
 			samples = append(samples, map[string]string{"variant": r.Variant, "outcome": r.Outcome, "reported": r.Reported})
 		}
+	}
+	// full listing for triage (not evidence): reports/<id>/sweep.tsv
+	if root := os.Getenv("VERIF_SWEEP_REPORT"); root != "" {
+		var b strings.Builder
+		for _, r := range results {
+			fmt.Fprintf(&b, "%s\t%s\t%s\n", r.Outcome, r.Variant, r.Reported)
+		}
+		_ = os.MkdirAll(root, 0o755)
+		_ = os.WriteFile(filepath.Join(root, rep.Property+".sweep.tsv"), []byte(b.String()), 0o644)
 	}
 	return map[string]interface{}{
 		"what": "syntactic variants of the current /repo tree inside the functions this property's obligations live in; each variant type-checked (go build) and analysed by the same rules in a separate process; nothing is executed. " +
